@@ -821,7 +821,8 @@ class Splicer:
                             op = k
                             break
                 i_ = tail.index(op) if op in tail else -1
-                if i_ >= 2 and toks[op].text == "(" and toks[tail[i_ - 1]].text == "all" and toks[tail[i_ - 2]].text == ".":
+                if i_ >= 2 and toks[op].text == "(" and toks[tail[i_ - 1]].text in ("all", "any") and toks[tail[i_ - 2]].text == ".":
+                    meth20_ = toks[tail[i_ - 1]].text
                     dot = tail[i_ - 2]
                     cl_ = [c for c in cls if op < c["params_lo"] and c["body_hi"] <= tail[-1] + 1]
                     cl_ = [c for c in cl_ if not any(o is not c and o["params_lo"] < c["params_lo"] and c["body_hi"] <= o["body_hi"] for o in cl_)]
@@ -840,14 +841,25 @@ class Splicer:
                         params = rs.text_of(toks, c_["params_lo"] + 1, c_["params_hi"] - 1).strip()
                         body = self.render(c_["body_lo"], c_["body_hi"]).strip()   # closure specs of inner closures included
                         recv_lo = amp + 1 if amp is not None else tail[0]
-                        recv = rs.text_of(toks, recv_lo, dot).strip()
+                        while toks[recv_lo].kind in ("ws", "comment", "doc"):
+                            recv_lo += 1
+                        neg_ = toks[recv_lo].text == "!"
+                        if meth20_ == "any" and not neg_:
+                            len_cl_ = 0   # a bare `X.any(..)` tail is a different function: not this rule
+                            cl_ = []
+                        recv = rs.text_of(toks, recv_lo + (1 if neg_ else 0), dot).strip()
                         guard = ""
                         if amp is not None:
                             guard = "if !(%s) { return false; } " % rs.text_of(toks, tail[0], amp).strip()
                         ls = [l_ for l_ in fs.loops if l_.kw == "all" and l_.ordinal == 1]
                         inv = ("\n" + clause_lines(ls[0].clauses, indent="                    ") + "                ") if ls else " "
-                        newt = "%slet mut __it = %s; while let Some(%s) = __it.next()%s{ if !(%s) { return false; } } true" % (guard, recv, params, inv, body)
+                        if meth20_ == "all" and neg_:
+                            cl_ = []      # `!X.all(..)` is not covered
+                        test_ = "!(%s)" % body if meth20_ == "all" else "(%s)" % body   # `!X.any(p)`: false as soon as p holds (libcore: any = try_fold short-circuiting on the first true)
+                        newt = "%slet mut __it = %s; while let Some(%s) = __it.next()%s{ if %s { return false; } } true" % (guard, recv, params, inv, test_)
                         before = rs.text_of(toks, tail[0], tail[-1] + 1)
+                        if len(cl_) != 1:
+                            raise Undecided("R20: unsupported shape in %s [demotable fn=%s]" % (key, key))
                         self.sub(tail[0], tail[-1] + 1, newt, "R20")
                         g.meta["r13_r14"].append({"fn": key, "rule": "R20", "before": before, "after": re.sub(r"\s+", " ", newt)})
                         done = True
